@@ -43,11 +43,21 @@ def run(ctx):
         # three splits writing ONE path (every content pattern, every order of upload times, every arrival order)
         one = gen(ctx, "onepath.ndjson", {'MPaths = {"p", "d/q"}': 'MPaths = {"p"}'})
         results.append(vlib.replay_sharded(ctx, "merge", one, "one", ["--leaf", "65536", "--seed", str(ctx.seed)], shards=12))
+        # the same cases with the commit listing the splits in pages of 1, 2, 3, 5 keys (and the default)
+        results.append(vlib.replay_sharded(ctx, "merge", one, "pages", ["--leaf", "4096", "--seed", str(ctx.seed), "--small-pages"], shards=12))
         samp = gen(ctx, "samp.ndjson", {"Sample = FALSE": "Sample = TRUE", "MaxVersions = 3": "MaxVersions = 5",
                                         'MPaths = {"p", "d/q"}': 'MPaths = {"p", "d/q", ".env", "env"}',
                                         'Hashes = {"h1", "h2"}': 'Hashes = {"h1", "h2", "h3"}'}, simulate="num=500")
         results.append(vlib.replay_sharded(ctx, "merge", samp, "samp",
                                            ["--leaf", "4096", "--seed", str(ctx.seed)] + (["--crc"] if ctx.seed % 2 else []), shards=12))
+    # splits of more than 1000 entries (several file lists per split and for the commit): every split also uploads
+    # 1001 filler files that never conflict
+    src = samp if not ctx.thorough else big
+    lines = [l for l in open(src).read().splitlines() if l.strip()]
+    bulk = os.path.join(ctx.work, "bulk.ndjson")
+    open(bulk, "w").write("\n".join(lines[:(16 if ctx.thorough else 6)]) + "\n")
+    results.append(vlib.replay_sharded(ctx, "merge", bulk, "bulk", ["--leaf", "64", "--seed", str(ctx.seed), "--bulk", "1001", "--sched=false"],
+                                       shards=6))
     tot = vlib.account(ctx, results)
     ctx.notes.update(cases_replayed=tot["behaviours"], steps_compared=tot["steps"], distinct_nontrivial=tot["nontrivial"],
                      rule="case = (set of versions [split, path, content] with a total order of upload times, conflict mode, "
